@@ -221,8 +221,10 @@ def run_chain(r, recorder: Recorder) -> dict:
         return out
 
     labels = []
+    broken = False
     with SimDirector(project, seed=r.randrange(1 << 30)) as sim, recorder.active():
-        sim.build(njob=r.randint(1, 3))
+        first = sim.build(njob=r.randint(1, 3))
+        broken = first.status != "done"
         for _ in range(r.randint(2, 4)):
             chosen = r.sample(EDITS, r.randint(1, 2))
             labels.append("+".join(name for name, _ in chosen))
@@ -237,18 +239,21 @@ def run_chain(r, recorder: Recorder) -> dict:
             if r.random() < 0.15:
                 sim.setenv("SIM_A", str(r.randint(1, 3)))
                 labels[-1] += "|env"
+            if broken:
+                break
             res = sim.build(**kwargs)
             if res.status != "done":
+                broken = True
                 break
-    return {"scenario": labels}
+    return {"scenario": labels, "broken": broken}
 
 
 def run_projgen(r, recorder: Recorder) -> dict:
     model = projgen.gen_model(r)
     hist = buildkit.gen_hist(r, model, watch_prob=0.3)
     with recorder.active():
-        projgen.run_history(projgen.render(model), hist.events, seed=r.randrange(1 << 30))
-    return {"scenario": hist.mutations}
+        results = projgen.run_history(projgen.render(model), hist.events, seed=r.randrange(1 << 30))
+    return {"scenario": hist.mutations, "broken": any(x.status != "done" for x in results)}
 
 
 # ---------------------------------------------------------------------------------------------
@@ -306,16 +311,25 @@ async def run(ctx, only=("skip", "validate", "hashjob"), quick=(36, 10), thoroug
 
     def work():
         out = []
+        nbroken = 0
         for i in range(nchain):
+            if nbroken >= 3:  # a hanging or dying director costs a watchdog period per build
+                break
             rec = Recorder()
             r = ctx.rng("skipcorr", "chain", i)
             summary = run_chain(r, rec)
+            nbroken += summary["broken"]
             out.append((rec.calls, summary["scenario"]))
         for i in range(nhist):
+            if nbroken >= 3:
+                break
             rec = Recorder()
             r = ctx.rng("skipcorr", "hist", i)
             summary = run_projgen(r, rec)
+            nbroken += summary["broken"]
             out.append((rec.calls, summary["scenario"]))
+        if nbroken:
+            ctx.stats.count("executor-scenarios-with-a-broken-director", nbroken)
         return out
 
     results = await asyncio.to_thread(work)
